@@ -460,6 +460,44 @@ def SeedDeriv.kd {K : Type} (sd : SeedDeriv K) (seed : Bytes) : KeyDeriv K :=
 def SeedDeriv.rn {K : Type} (sd : SeedDeriv K) (seed : Bytes) : Opening → Nat :=
   sd.nonceOf (sd.secret (sd.masterOf seed))
 
+/-! ### the hasher object (`BIP32Hasher`, `BIP32GrinHasher`)
+
+Every derivation (`new_master`, `ckd_priv`, `ViewKey::ckd_pub_tweak`, `ExtendedPubKey::ckd_pub_tweak`)
+takes `hasher: &mut H` and uses it as `init_sha512(key)`, `append_sha512(..)*`, `result_sha512()`.
+`init_sha512` **replaces** the HMAC state with a fresh one keyed by `key`; `result_sha512` finalises a
+*copy* and leaves the state as it is.  `hmac` is the opaque HMAC-SHA512. -/
+
+/-- the state of the hasher object: the HMAC key it was last initialised with and the bytes
+appended since -/
+structure HState where
+  key : Bytes
+  data : Bytes
+  deriving DecidableEq, Repr
+
+/-- `BIP32GrinHasher::new`: keyed with 128 zero bytes, nothing appended -/
+def HState.fresh : HState := ⟨List.replicate 128 0, []⟩
+/-- `init_sha512(key)`: `self.hmac_sha512 = HmacSha512::new_from_slice(key)` -/
+def HState.init (_h : HState) (key : Bytes) : HState := ⟨key, []⟩
+/-- `append_sha512(value)` -/
+def HState.append (h : HState) (v : Bytes) : HState := { h with data := h.data ++ v }
+/-- `result_sha512()`: finalises a copy; the object keeps its state -/
+def HState.result (hmac : Bytes → Bytes → Bytes) (h : HState) : Bytes := hmac h.key h.data
+
+/-- one use of the hasher by a derivation step: `init(key)`, `append` of each part, `result`;
+returns the 64 HMAC bytes and the hasher object afterwards.  `new_master`: key = "IamVoldemort",
+parts = [seed]; `ckd_priv` / `ckd_pub_tweak`: key = chain code, parts = [key material, be32(index)] -/
+def hashStep (hmac : Bytes → Bytes → Bytes) (h : HState) (key : Bytes) (parts : List Bytes) :
+    Bytes × HState :=
+  let h' := parts.foldl HState.append (h.init key)
+  (h'.result hmac, h')
+
+/-- consecutive derivation steps on ONE hasher object: the results, in order -/
+def hashSeq (hmac : Bytes → Bytes → Bytes) : HState → List (Bytes × List Bytes) → List Bytes
+  | _, [] => []
+  | h, (key, parts) :: rest =>
+    let r := hashStep hmac h key parts
+    r.1 :: hashSeq hmac r.2 rest
+
 /-! ### the free key derivation
 
 `derive_key` reads only `depth` and the first `depth` components, so two identifiers that agree on
